@@ -340,8 +340,10 @@ def install_wrappers(log, kill_marker):
     return mark
 
 
-def child_body(paths, codec, adbc, ne, cache_dir, evpath, kill_marker, gate):
-    """Never returns."""
+def child_body(paths, codec, adbc, ne, cache_dir, evpath, kill_marker, gate, normal_exit=True):
+    """Never returns.  normal_exit: do what interpreter finalisation does to the cache before leaving
+    (collect the diskcache object: its sqlite connection closes and the WAL is checkpointed into
+    cache.db); otherwise leave abruptly, as os._exit / a crash after the call would."""
     try:
         try:
             resource.setrlimit(resource.RLIMIT_AS, (4 << 30, 4 << 30))
@@ -359,6 +361,9 @@ def child_body(paths, codec, adbc, ne, cache_dir, evpath, kill_marker, gate):
         out, m = compile_outcome(paths, codec, adbc, ne, cache_dir)
         mark('return')
         log.put({'op': 'result', 'out': out, 'map': m or {}})
+        if normal_exit:
+            import gc
+            gc.collect()
     except BaseException as e:  # noqa
         try:
             EventLog(evpath).put({'op': 'result', 'out': {'st': 'exc', 'cls': 'DriverChild:' + type(e).__name__,
@@ -386,7 +391,7 @@ STRACE = shutil.which('strace')
 _strace_ok = None
 
 
-def run_child(paths, codec, adbc, ne, cache_dir, evpath, kill=None, trace_to=None):
+def run_child(paths, codec, adbc, ne, cache_dir, evpath, kill=None, trace_to=None, normal_exit=True):
     """Run the cached call in a forked child.  kill: None | {"kind":"sys"|"marker"|"delay", ...}.
     trace_to: path -> only count syscalls with strace (profiling), no injection.
     Returns (wait status, events, how) where how tells how a kill was realised."""
@@ -404,7 +409,7 @@ def run_child(paths, codec, adbc, ne, cache_dir, evpath, kill=None, trace_to=Non
     if pid == 0:
         if gate_w is not None:
             os.close(gate_w)
-        child_body(paths, codec, adbc, ne, cache_dir, evpath, marker, gate_r)
+        child_body(paths, codec, adbc, ne, cache_dir, evpath, marker, gate_r, normal_exit)
     st = None
     sp = None
     try:
@@ -539,7 +544,8 @@ class Replayer(object):
         ev = {'t': 'kill' if kill else 'call', 'fl': fl, 'codec': step['codec'], 'ne': step['ne'], 'adbc': step['adbc'],
               'texts': texts, 'exp': step.get('exp', '-'), 'why': step.get('why', [])}
         evpath = os.path.join(os.path.dirname(cdir), 'events.ndjson')
-        st, evs, how = run_child(paths, step['codec'], adbc, ne, cdir, evpath, kill=kill)
+        st, evs, how = run_child(paths, step['codec'], adbc, ne, cdir, evpath, kill=kill,
+                                 normal_exit=case.get('exit', 'normal') == 'normal')
         res = [e for e in evs if e.get('op') == 'result']
         ev['wr'] = [{'op': e['op'], 'kh': e['kh'], 'r': e['r']} for e in evs if e.get('op') in ('get', 'set')]
         # a set that was begun and finished appears twice (begun, ok): keep the final state per set
@@ -702,7 +708,7 @@ class Replayer(object):
         return self.do_corrupt(step, cdir, p or {'fsel': 0, 'pos_pm': 500, 'mask': 1})
 
     def emit(self, case, cid, evs, out, point=None):
-        line = {'cid': cid, 'world': case['world'], 'mode': case.get('mode', 'db'), 'ev': evs,
+        line = {'cid': cid, 'world': case['world'], 'mode': case.get('mode', 'db'), 'exit': case.get('exit', 'normal'), 'ev': evs,
                 'case': {k: v for k, v in case.items() if k != 'cid'},
                 'chunks': {str(k): v[0] for k, v in CHUNKS[case['world']].items()}}
         if point is not None:
